@@ -204,7 +204,10 @@ Section LiteDriver.
     st <- status ;;
     r <- l_retry (Z.to_nat (Z.max 0 force_retry)) force_retry (SBool (negb (Z.land st 32 =? 0))) send_only fuel ;;
     st <- status ;;
-    if (Z.land st 96 =? 96) && negb send_only then p <- l_read None ;; ret (SPayload p) else ret r.
+    match r with
+    | SBool true => if (Z.land st 96 =? 96) && negb send_only then p <- l_read None ;; ret (SPayload p) else ret r
+    | _ => ret r        (* `result is True`: a forced resend() has already fetched its ACK payload (fix C20) *)
+    end.
 
   Fixpoint l_send_each (bufs : list (list N)) (ask_no_ack : bool) (force_retry : Z) (send_only : bool) (fuel : nat)
     : M (list sendres) :=
